@@ -187,15 +187,16 @@ theorem evalCH_callx_sub {ms : MacroSem} {subs : CSubEnv} {f : Nat} {σ σ1 σr 
     (hargs : evalCHArgs ms subs f σ args params = .ok (vs, σ1))
     (hspec : specCallC name exts σ1 = none) (hsub : lookupS name subs = some sub) (hrefs : refArgs exts = sub.refs)
     (hbody : execCHs ms subs f sub.body { σ1 with locals := (sub.params.map (·.1)).zip vs } = .ok σr)
-    (hret : lookupS "$ret" σr.locals = some v) :
+    (hret : lookupS "$ret" σr.locals = some v) {v' : Val}
+    (hconv : convC { signed := false, width := 64 } sub.ret v = .ok v') :
     evalCH ms subs (f+1) σ (.callx name exts args ret params) =
-      .ok (v, { σ1 with mem := σr.mem, stores := σr.stores, new := σr.new, written := σr.written }) := by
+      .ok (v', { σ1 with mem := σr.mem, stores := σr.stores, new := σr.new, written := σr.written }) := by
   rw [evalCH]
   refine bind_ok_of hargs ?_
   simp only [hspec, hsub]
   rw [if_neg (by simpa using hrefs)]
   refine bind_ok_of hbody ?_
-  simp only [hret]
+  simp only [hret, hconv, bind, Except.bind]
 
 /-- … and is refused (no meaning, the state is not judged) when the operand is handed over under another name -/
 theorem evalCH_callx_other_operand {ms : MacroSem} {subs : CSubEnv} {f : Nat} {σ σ1 : MState} {name : String}
